@@ -50,6 +50,9 @@ class Abs:
         """returns (valid, handles that must be resumed during this operation)"""
         op = w[0]
         a = [int(x) for x in w[1:]]
+        # a suspend point destroyed / discarded *during stack unwinding* owes its coroutines exactly the same
+        if op == "delx": op = "del"
+        if op == "clearx": op = "clear"
         S = self.slots
         if op == "ctor":
             if not self.vacant(a[0]): return False, []
@@ -109,6 +112,15 @@ class Abs:
                 del hs[k]
                 S[a[0]]["h"] = hs
                 self.popped[popped] = self.popped.get(popped, 0) + 1
+        elif op in ("csp", "cspv"):
+            # create_suspend_point(fn): the coroutines fn made ready are held by the new suspend point (taken off the back
+            # of the ready queue: reverse order), nothing is resumed, the rest of the queue is untouched
+            first = 1 if op == "csp" else 2
+            hs = a[first:]
+            if not self.vacant(a[0]) or len(a) < first or any(not (0 <= h < NCOROS) for h in hs): return False, []
+            S[a[0]] = {"typed": op == "cspv", "val": a[1] if op == "cspv" else None, "h": hs[::-1]}
+            for h in hs:
+                self.give(h)
         elif op == "clear":
             if not self.live(a[0]): return False, []
             hs = S[a[0]]["h"]
@@ -300,6 +312,18 @@ class SPSuite(Suite):
                 if i is None:
                     continue
                 k = rng.random()
+                if k < 0.12:
+                    # create_suspend_point: a function makes 0..n coroutines ready, optionally returns a value
+                    hs = []
+                    for _ in range(rng.choice([0, 1, 2, 3, 4, 5, 7, 9, 13])):
+                        h = fresh()
+                        if h is not None:
+                            hs.append(h)
+                    if rng.random() < 0.5:
+                        emit(" ".join(["csp %d" % i] + [str(h) for h in hs]))
+                    else:
+                        emit(" ".join(["cspv %d %d" % (i, rng.randint(0, 999))] + [str(h) for h in hs]))
+                    continue
                 h = fresh()
                 if k < 0.3 or h is None: emit("ctor %d" % i) if rng.random() < 0.6 else emit("ctorv %d %d" % (i, rng.randint(0, 999)))
                 elif k < 0.65: emit("ctorh %d %d" % (i, h))
@@ -333,9 +357,9 @@ class SPSuite(Suite):
             elif r < pm + 0.27:
                 emit("pop %d" % rng.choice(live))
             elif r < pm + 0.35:
-                emit("clear %d" % rng.choice(live))
+                emit("%s %d" % ("clearx" if rng.random() < 0.3 else "clear", rng.choice(live)))
             elif r < pm + 0.43:
-                emit("del %d" % rng.choice(live))
+                emit("%s %d" % ("delx" if rng.random() < 0.3 else "del", rng.choice(live)))
             elif r < pm + 0.53:
                 emit("await %d %d" % (rng.choice(live), me_id()))
             elif r < pm + 0.56 and mode == "c":
@@ -361,11 +385,21 @@ class SPSuite(Suite):
         cases = []
         for mode in ("n", "c"):
             for size in list(range(0, 14)) + [24, 25, 26, 40, 48, 49, 50]:
-                for how in ("del", "clear", "await", "pop", "popall", "mrg", "mov", "asg"):
+                for how in ("del", "clear", "delx", "clearx", "await", "pop", "popall", "mrg", "mov", "asg", "csp", "cspv"):
                     ls = ["case 0 sp %s 3 %d" % (mode, NCOROS), "ctorv 0 7" if how == "asg" else "ctor 0"]
                     ls += ["addh 0 %d" % k for k in range(size)]
-                    if how in ("del", "clear"):
+                    if how in ("csp", "cspv"):
+                        # the same number of coroutines, made ready by a function under create_suspend_point, with other
+                        # coroutines already waiting in the ready queue (coroutine mode)
+                        ls = ["case 0 sp %s 3 %d" % (mode, NCOROS), "ctorh 1 80", "addh 1 81", "clear 1",
+                              " ".join([how + " 0"] + (["7"] if how == "cspv" else []) + [str(k) for k in range(size)]),
+                              "size 0", "pop 0", "delx 0" if size % 2 else "await 0 %d" % (DRIVER_ID if mode == "c" else 100)]
+                        if how == "cspv":
+                            ls.insert(5, "conv 0")
+                    elif how in ("del", "clear", "delx", "clearx"):
                         ls.append("%s 0" % how)
+                        if how == "clearx":
+                            ls += ["size 0", "addh 0 85", "delx 0"]
                     elif how == "await":
                         ls.append("await 0 %d" % (DRIVER_ID if mode == "c" else 100))
                     elif how == "pop":
@@ -449,7 +483,7 @@ class SPSuite(Suite):
         """every sequence of up to `depth` macro-operations over two suspend points (slot 0 starts with 3 handles, i.e.
         at the inline limit, slot 1 with one), in both modes; `grow` adds 4 handles at once (crosses the next boundary)"""
         alphabet = ["add0", "add1", "grow0", "mrg01", "mrg10", "asg01", "self0", "mov", "pop0", "pop1", "clear0", "del0",
-                    "del1", "await0", "await1", "own0", "conv1", "tmov1"]
+                    "del1", "await0", "await1", "own0", "conv1", "tmov1", "delx0", "clearx1", "csp"]
         cases = []
 
         def rec(prefix):
@@ -494,6 +528,13 @@ class SPSuite(Suite):
             elif m == "tmov1":
                 # typed move construction and typed move assignment back: the value travels with them
                 ls += ["mov 2 1", "conv 2", "asg 1 2", "del 2", "conv 1"]
+            elif m == "delx0":
+                ls += ["delx 0", "ctor 0"]
+            elif m == "clearx1":
+                ls.append("clearx 1")
+            elif m == "csp":
+                ls += ["csp 2 %d %d" % (nxt, nxt + 1), "mrg 0 2", "del 2"]
+                nxt += 2
             elif m == "own0":
                 # own handle behind whatever slot 0 holds, one more handle behind it, then co_await
                 me += 1
